@@ -26,8 +26,9 @@ REQUIRED_THEOREMS = [
     "Cv.C20.rbf_kernel_psd", "Cv.C20.rq_kernel_psd_model", "Cv.C20.rbf_gram_psd", "Cv.C20.rq_gram_psd",
     "Cv.C20.rbf_gram_posSemidef", "Cv.C20.rq_gram_posSemidef",
 ]
-RULE = ("RBF and RQ kernels, var / length scale / alpha log-uniform in (1e-2, 1e2) plus invalid parameters (panic "
-        "class); scalar form on batches of pairs in +-1e3 (each batch holds (x,y), (y,x), (x,x) triples and a ladder "
+RULE = ("RBF and RQ kernels, var / length scale / alpha log-uniform in (1e-2, 1e2) mixed with exact special values "
+        "(alpha in {1/2, 1/3, 1/4, 1, 3/2, 2, 3, 0.1, 10}, var and length scale in {0.5, 1, 2, 0.01, 100}: ~30 % of the "
+        "lines, and every special alpha once per form per run) plus invalid parameters (panic class); scalar form on batches of pairs in +-1e3 (each batch holds (x,y), (y,x), (x,x) triples and a ladder "
         "of distances from 1 ulp to 40 length scales); matrix form on point sets of 1..60 points (every size, "
         "chunk-of-8 boundaries emphasised) passed as Vector, &Vector, Matrix, &Matrix (all factorisations r x c of "
         "the point count), Gram (x = y) and cross (x != y) calls, clusters at offsets 0..1e3 with spreads 0.01..30 "
@@ -124,8 +125,25 @@ def gen_param(rng):
     return rng.loguniform(1.0001e-2, 0.9999e2)
 
 
+# Exact special parameter values (fast paths / special cases keyed on an exact exponent or scale are invisible
+# to log-uniform draws): about 30 % of all lines use at least one of them, and gen() emits every alpha once per
+# form in every run.
+SPECIAL_ALPHA = [0.5, 1.0 / 3.0, 0.25, 1.0, 1.5, 2.0, 3.0, 0.1, 10.0]
+SPECIAL_SCALE = [0.5, 1.0, 2.0, 0.01, 100.0]
+
+
 def gen_params(rng, rq):
-    return [gen_param(rng) for _ in range(3 if rq else 2)]
+    """[var, ls] or [var, alpha, ls]"""
+    ps = [gen_param(rng) for _ in range(3 if rq else 2)]
+    if rng.chance(0.3):
+        pools = [SPECIAL_SCALE, SPECIAL_ALPHA, SPECIAL_SCALE] if rq else [SPECIAL_SCALE, SPECIAL_SCALE]
+        forced = rng.randint(0, len(ps) - 1)
+        if rq and rng.chance(0.6):
+            forced = 1
+        for j in range(len(ps)):
+            if j == forced or rng.chance(0.4):
+                ps[j] = rng.choice(pools[j])
+    return ps
 
 
 BAD = [0.0, -0.0, -1.0, -1e-300, float("nan"), float("-inf")]
@@ -211,6 +229,24 @@ def gen(rng, tier):
         lines.append(mk_pairs("rq_p" if rq else "rbf_p", i // 2 % 2, params, pairs))
         cover["scalar_lines"] += 1
         cover["scalar_pairs"] += len(pairs)
+    # ---- every special alpha, scalar and matrix form (all four kinds rotate), special scales for RBF
+    cover["special_param_lines"] = 0
+    for j, a in enumerate(SPECIAL_ALPHA):
+        var = rng.choice(SPECIAL_SCALE) if j % 2 == 0 else gen_param(rng)
+        ls = rng.choice(SPECIAL_SCALE) if j % 3 == 0 else gen_param(rng)
+        lines.append(mk_pairs("rq_p", j % 2, [var, a, ls], gen_pairs(rng, ls, 8)))
+        n = rng.choice([2, 5, 9, 17])
+        px, _ = gen_points(rng, ls, n)
+        kind = j % 4
+        rx, cx = shape_for(rng, kind, n)
+        lines.append(mk_mat("rq_m", kind, [var, a, ls], rx, cx, px, rx, cx, list(px)))
+        cover["special_param_lines"] += 2
+    for j, v in enumerate(SPECIAL_SCALE):
+        ls = SPECIAL_SCALE[(j + 2) % len(SPECIAL_SCALE)]
+        px, _ = gen_points(rng, ls, 9)
+        lines.append(mk_mat("rbf_m", j % 4, [v, ls], 1 if j % 4 < 2 else 3, 9 if j % 4 < 2 else 3, px, 1 if j % 4 < 2 else 3, 9 if j % 4 < 2 else 3, list(px)))
+        lines.append(mk_pairs("rbf_p", j % 2, [v, ls], gen_pairs(rng, ls, 8)))
+        cover["special_param_lines"] += 2
     # ---- invalid parameters: every position, scalar and matrix
     for rq in (False, True):
         for pos in range(3 if rq else 2):
@@ -284,6 +320,11 @@ def corpus():
     # indefinite Gram matrix; the oracle demands entry <= var and bit equality with the scalar form
     ls.append(mk_mat("rbf_m", 0, [one, 0.01], 1, 2, [913.436, 913.4360001], 1, 2, [913.436, 913.4360001]))
     ls.append(mk_pairs("rbf_p", 0, [one, 0.01], [(913.436, 913.4360001), (913.4360001, 913.436)]))
+    # exact exponents 1/2 and 1/3 in the RQ matrix form (seed C20g: a sqrt/cbrt fast path in Vector::powf that
+    # forgot the reciprocal gave var (1+z)^(+alpha): entries above var, growing with distance, != scalar form)
+    for kind, a in ((0, 0.5), (1, 1.0 / 3.0), (2, 0.5), (3, 1.0 / 3.0)):
+        ls.append(mk_mat("rq_m", kind, [2.5, a, one], 1 if kind < 2 else 2, 4 if kind < 2 else 2, [-4.0, 1.5, 0.0, 2.0],
+                         1 if kind < 2 else 2, 4 if kind < 2 else 2, [-4.0, 1.5, 0.0, 2.0]))
     return ls
 
 
